@@ -40,6 +40,16 @@ HARNESS = str(Path(__file__).resolve().parents[1])
 PLACEHOLDERS = (D.SYM_STR, D.LTX_STR, D.EVAL_STR)
 
 
+_RECORD0: dict = {}
+
+
+def restore_switches():
+    """put every field of SymPy's global parameters back to what it was when the check started"""
+    from sympy.core.parameters import global_parameters as GP  # pylint: disable=import-outside-toplevel
+    for f, v in (_RECORD0 or {"evaluate": True}).items():
+        setattr(GP, f, v)
+
+
 def sha(s: str) -> str:
     return hashlib.sha1(s.encode()).hexdigest()[:12]
 
@@ -100,6 +110,7 @@ def tie_processors(ctx):
     n = ctx.pick(300, 3000)
     cases, keep = [], []
     old0 = getattr(processors, "_old_evaluation", None)
+    record0 = dict(ctx.coverage.get("global_parameters_at_start") or vars(GP))
     for k in range(n):
         ops = [rng.choice("DER") for _ in range(rng.randrange(0, 9))]
         if k < 40:                                   # exhaustive short prefixes first
@@ -112,7 +123,8 @@ def tie_processors(ctx):
                 fns[o]()
                 obs.append(bool(GP.evaluate))
         finally:
-            GP.evaluate = True
+            for f_, v_ in record0.items():
+                setattr(GP, f_, v_)
         cases.append("(%s, %s, %s)" % (D.coq_bool(start), D.coq_list(coqop[o] for o in ops), D.coq_list(map(D.coq_bool, obs))))
         keep.append((start, "".join(ops), obs))
     old1 = getattr(processors, "_old_evaluation", None)
@@ -145,7 +157,7 @@ def tie_switches(ctx):
     from sympy.core.parameters import global_parameters as GP  # pylint: disable=import-outside-toplevel
     from symplyphysics.core import processors  # pylint: disable=import-outside-toplevel
     src = common.REPO / "symplyphysics" / "core" / "processors.py"
-    defaults = dict(vars(GP))
+    defaults = dict(ctx.coverage.get("global_parameters_at_start") or vars(GP))     # snapshot taken before any tie ran
     try:
         table = D.read_processor_writes(src)
         if not all(isinstance(v, bool) for v in defaults.values()):
@@ -163,7 +175,7 @@ def tie_switches(ctx):
     fns = {"D": processors.disable_sympy_evaluation, "E": processors.enable_sympy_evaluation, "R": processors.reset_sympy_evaluation}
     coqop = {"D": "OpDisable", "E": "OpEnable", "R": "OpReset"}
     rng = ctx.rng
-    saved = dict(vars(GP))
+    saved = dict(defaults)
 
     def run_real(start, ops):
         obs = []
@@ -331,7 +343,7 @@ def run_synthetic(src: str, start: bool):
             raise
         return {"shape": shape, "error": "NameError"}
     finally:
-        GP.evaluate = True
+        restore_switches()
         del builtins.vp_c19_rec
     mem = [(m.name, any(d.directive_type == PA.LawDirectiveType.SYMBOL for d in m.directives),
         any(d.directive_type == PA.LawDirectiveType.LATEX for d in m.directives), int(m.value) - 1000) for m in members]
@@ -876,7 +888,7 @@ def exception_path_observation(ctx):
     except ZeroDivisionError:
         res = f"ZeroDivisionError raised; flag afterwards = {GP.evaluate!r}"
     finally:
-        GP.evaluate = True
+        restore_switches()
     ctx.coverage["exception_path_observation"] = res
 
 
@@ -940,6 +952,9 @@ def run(ctx):
         "a member's docstring is the string constant(s) following its assignment; binding of names by statements other "
         "than plain assignments / defs is not modelled (side condition of patch_parse_consistent_partial)")
 
+    from sympy.core.parameters import global_parameters as GP0  # pylint: disable=import-outside-toplevel
+    ctx.coverage["global_parameters_at_start"] = dict(vars(GP0))
+    _RECORD0.update(vars(GP0))
     sources = D.documented_sources(common.REPO)
     scratch = Path(tempfile.mkdtemp(prefix="vp_c19_"))
     ctx.coverage["scratch_dir"] = str(scratch)
@@ -977,7 +992,8 @@ def _run(ctx, sources, scratch):
     alt_seed = str(rng.randrange(1, 4000))
     base = {"repo": str(common.REPO), "harness": HARNESS}
     jobs = {
-        "A": Job(scratch, "runA", "full", base, "0"),
+        "A": Job(scratch, "runA", "full", dict(base, fresh_import=rng.sample([s["dotted"] for s in sources if s["kind"] == "law"],
+            k=len([s for s in sources if s["kind"] == "law"])), fresh_cap=ctx.pick(40, 10000)), "0"),
         "B": Job(scratch, "runB", "full", base, alt_seed),
         "ref": Job(scratch, "ref", "reference", dict(base, sources=[
             {"stem": s["stem"], "kind": s["kind"], "path": str(s["path"]), "dotted": s["dotted"]} for s in sources]), "0"),
@@ -1030,7 +1046,9 @@ def _run(ctx, sources, scratch):
             if after.get("flag") is not True:
                 ctx.violation("C19:flag-after-generation", f"sympy global_parameters.evaluate is {after.get('flag')!r} after the generator finished ({stage})",
                     {"kind": "violation", "observed": after, "expected": "evaluate is True", "replay_kind": "generate"})
-            for probe in ("x_plus_x", "two_times_three", "calculate_density", "old_evaluation"):
+            for probe in sorted(set(before) | set(after)):
+                if probe == "flag":
+                    continue
                 if after.get(probe) != before.get(probe):
                     ctx.violation(f"C19:computation-changed:{probe}", f"{probe} gives {after.get(probe)!r} after generation, {before.get(probe)!r} before",
                         {"kind": "violation", "observed": after, "expected": before, "replay_kind": "generate"})
@@ -1056,6 +1074,25 @@ def _run(ctx, sources, scratch):
         sources_for_pages = []
     else:
         sources_for_pages = sources
+    # modules imported for the first time after generation vs the same module imported in a clean process
+    live_code = {}
+    for s in sources:
+        for m in (ref.get(s["stem"] + "|" + s["kind"]) or {}).get("members", []):
+            if "live_code" in m:
+                live_code.setdefault(s["dotted"], {})[m["name"]] = m["live_code"]
+    n_fresh = 0
+    for dotted, got in (A.get("fresh_imports") or {}).items():
+        n_fresh += 1
+        for attr, code in got.items():
+            exp = live_code.get(dotted, {}).get(attr)
+            if attr == "__error__":
+                ctx.violation(f"C19:fresh-import:{dotted}", f"{dotted} cannot be imported after generation: {code}",
+                    {"kind": "violation", "item": dotted, "observed": code, "replay_kind": "generate"})
+            elif exp is not None and code != exp and not same_up_to_term_order(code, exp):
+                ctx.violation(f"C19:fresh-import:{dotted}:{attr}",
+                    f"{dotted}.{attr} imported for the first time after generation is `{code}`, in a clean process it is `{exp}`",
+                    {"kind": "violation", "item": dotted, "member": attr, "observed": code, "expected": exp, "replay_kind": "generate"})
+    ctx.coverage["fresh_imports_after_generation"] = n_fresh
     n_checked, n_formula, n_rows, term_order = check_pages(ctx, sources_for_pages, rawA, ref)
     for t in term_order:
         history.append(dict(t, experiment="generator run vs reference execution"))
@@ -1127,7 +1164,7 @@ def _run(ctx, sources, scratch):
             ctx.violation(f"C19:page-raises:{err['item']}", f"generating {err['item']} raised {err['error']} (cause {err['cause']})",
                 {"kind": "violation", "item": err["item"], "observed": err, "replay_kind": "page"})
         if (o.get("after") or {}).get("flag") is not True or any(
-                o["after"].get(p) != o["before"].get(p) for p in ("x_plus_x", "calculate_density")):
+                o["after"].get(p) != o["before"].get(p) for p in o["before"] if p != "flag"):
             ctx.violation(f"C19:state-after-ordered-run:{k}", "library computations differ after generating pages in a seeded order",
                 {"kind": "violation", "observed": o.get("after"), "expected": o.get("before"), "replay_kind": "generate"})
         pages = read_pages(jobs[f"ord{k}"].dir / "ord") if pages_ok and not o["errors"] else {}
